@@ -62,9 +62,11 @@ var c20URLs = []c20URLForm{
 	{Name: "subdomain-initial", URL: "http://sub.trusted.com/start/a", Addr: "sub.trusted.com:80"},
 	{Name: "ipv6-initial", URL: "http://[::1]/start/a", Addr: "[::1]:80"},
 	{Name: "host-header", URL: "/start/a", Addr: "trusted.com:80", HostHeader: "trusted.com"},
+	{Name: "no-path-query", URL: "http://trusted.com?x=1", Addr: "trusted.com:80"},
+	{Name: "scheme-relative-initial", URL: "//trusted.com/start/a", Addr: "trusted.com:80"},
 }
 
-var c20Spells = []string{"canonical", "lower-nonorm", "cookie-api", "upper-nonorm", "add-dup"}
+var c20Spells = []string{"canonical", "lower-nonorm", "cookie-api", "upper-nonorm", "add-dup", "no-special"}
 
 var c20APIs = []string{"Client.DoRedirects", "HostClient.DoRedirects", "Client.Get", "Client.GetTimeout", "Client.GetDeadline", "Client.Post", "HostClient.Get", "HostClient.Post"}
 
@@ -361,7 +363,7 @@ type c20Counters struct {
 
 func (c *c20Counters) flush(r *vrt.R) {
 	for k, v := range map[string]int64{
-		"c20_cases": c.cases, "c20_cases_no_request_sent": c.noReq, "c20_cases_unparseable_request": c.garbled,
+		"c20_cases": c.cases, "c20_cases_no_request_sent": c.noReq, "c20_cases_with_unparseable_bytes_credentials_only_judged": c.garbled,
 		"c20_chains_crossed_to_untrusted_host": c.crossed, "c20_chains_reentered_trusted_after_untrusted": c.reentered,
 		"c20_chains_hit_redirect_limit": c.limitHit, "c20_requests_to_untrusted_hosts_examined": c.untrustedReqs,
 		"c20_redirected_requests_to_trusted_hosts_still_carrying_credentials": c.keptOnTrusted,
@@ -406,6 +408,11 @@ func c20SetSensitive(req *Request, spell string) {
 				continue
 			}
 			req.Header.Add(s.Name, s.Value)
+		}
+	case "no-special":
+		req.Header.DisableSpecialHeader()
+		for _, s := range c20Sensitive {
+			req.Header.Set(s.Name, s.Value)
 		}
 	case "add-dup":
 		for _, s := range c20Sensitive {
@@ -525,16 +532,17 @@ func c20Run(r *vrt.R, cs *c20Case, ct *c20Counters) {
 	ct.cases++
 	n.mu.Lock()
 	defer n.mu.Unlock()
-	if n.garbled != "" {
-		// a request net/http cannot parse is not this property's subject (C05/C03); the chain is not judged.
+	garbled := n.garbled != ""
+	if garbled {
+		// Bytes net/http cannot parse as a request (e.g. a body sent without framing headers) are not this property's
+		// subject; the heads that did parse are still judged for credentials, the hop-count and rewrite rules are not.
 		ct.garbled++
 		if c20Debug {
 			fmt.Printf("C20DEBUG garbled: %s | %s\n", n.garbled, c20CaseString(cs))
 		}
 		if r.WantSample() && ct.garbled == 1 {
-			r.Sample(map[string]any{"case": c20CaseString(cs), "unparseable_request_not_judged": n.garbled})
+			r.Sample(map[string]any{"case": c20CaseString(cs), "unparseable_bytes_only_credentials_judged": n.garbled})
 		}
-		return
 	}
 	reqs := n.log
 	if len(reqs) == 0 {
@@ -614,6 +622,13 @@ func c20Run(r *vrt.R, cs *c20Case, ct *c20Counters) {
 	}
 	if reentered {
 		ct.reentered++
+	}
+
+	if garbled {
+		if nontrivial {
+			r.Nontrivial(c20CaseString(cs))
+		}
+		return
 	}
 
 	// (2) number of redirects followed
@@ -759,17 +774,12 @@ func c20Spaces(r *vrt.R) []c20Space {
 			}
 		}})
 	if r.Thorough() {
-		// B4 leaves out the forms that end a chain with a URL error or an empty host and near-duplicates of kept forms.
-		skip := map[string]bool{"pct25-suffix": true, "pct25-sub": true, "pct2e": true, "backslash-at": true, "empty-host": true, "triple-slash": true,
-			"query-only": true, "rel-dotdot": true, "userinfo-colon-lookalike": true, "dot-other": true, "upper-other": true, "ipv6-port": true, "hash-at": true, "no-slashes": true}
 		var l4 []string
 		for _, l := range c20Locs {
-			if !skip[l.Name] {
-				l4 = append(l4, l.Loc)
-			}
+			l4 = append(l4, l.Loc)
 		}
 		n4 := len(l4)
-		sp = append(sp, c20Space{fmt.Sprintf("B4: every chain of 4 Location forms (%d forms: all but %d that end the chain or duplicate a kept form), status 302, POST, Client.DoRedirects max 5", n4, len(skip)),
+		sp = append(sp, c20Space{fmt.Sprintf("B4: every chain of 4 Location forms (%d forms), status 302, POST, Client.DoRedirects max 5", n4),
 			func(yield func(*c20Case) bool) {
 				var cs c20Case
 				seqx.Product([]int{n4, n4, n4, n4}, -1, func(x []int) bool {
@@ -858,7 +868,7 @@ func TestVerif_C20(t *testing.T) {
 		"Oracle from the hosts' logs after the call returned: a request to a host (dialled address and Host header; lower-cased, port, brackets and root dot dropped) that is neither the first request's host nor a subdomain of it carries none of the caller's Authorization/Cookie/Cookie2/Proxy-Authorization/Proxy-Authenticate/WWW-Authenticate values; " +
 		"redirects followed <= max (16 for Get/Post) and ErrTooManyRedirects when the limit is hit; after 303 the next request is GET (HEAD after HEAD) without body/Content-Length/Transfer-Encoding/Trailer/Content-Type; POST->GET after 301/302; 307/308 keep method and buffered body. " +
 		"Non-trivial: the chain reached an untrusted host, hit the limit, or had a 303 / POST-301/302 rewrite checked")
-	r.Assume("net/http.ReadRequest as the fake hosts' request parser (chains whose request it cannot parse are counted and not judged)",
+	r.Assume("net/http.ReadRequest as the fake hosts' request parser (chains with bytes it cannot parse are counted; their parsed request heads are judged for credentials only)",
 		"an https hop is served by the same plaintext in-memory conn (it exposes Handshake(), which client.go dialAddr takes as already-TLS); real TLS is C21's subject",
 		"package-level DoRedirects/Get/Post are one-line delegations to the same functions with &defaultClient and are not driven separately (the shared default client cannot carry a per-case dialer)")
 	r.Set("location_forms", len(c20Locs))
